@@ -77,13 +77,39 @@ SharedOperandCases ==
        Case([NoUpd EXCEPT !.add = <<[p |-> P("n1"), v |-> Val(":v")], [p |-> P("n2"), v |-> Val(":v")]>>], it, <<>>, V1(Num(5))),
        Case([NoUpd EXCEPT !.set = <<[p |-> P("x"), v |-> Val(":v")], [p |-> P("y"), v |-> Val(":v")]>>, !.add = <<[p |-> P("a"), v |-> Val(":v")]>>], it, <<>>, V1(big)),
        Case([NoUpd EXCEPT !.set = <<[p |-> P("x"), v |-> [k |-> "lapp", l |-> Val(":v"), r |-> Val(":v")]], [p |-> P("y"), v |-> Val(":v")]>>], it, <<>>, V1(LV)) }
+\* list_append twice with one first operand (a list attribute, a placeholder) of every length 0..5: the operand must come out of
+\* the first call as it went in (an append that writes into spare capacity of the operand would show in the second result)
+ListOf(k) == Mk("L", [i \in 1..k |-> Num(i)])
+LApp(l, r) == [k |-> "lapp", l |-> l, r |-> r]
+SharedListCases ==
+     { Case([NoUpd EXCEPT !.set = <<[p |-> P("x"), v |-> LApp(Path("lst"), Val(":v"))], [p |-> P("y"), v |-> LApp(Path("lst"), Val(":w"))]>>],
+            Keep @@ [lst |-> ListOf(k)], <<>>, V2(Mk("L", <<Str(<<112>>)>>), Mk("L", <<Str(<<113>>)>>))) : k \in 0..5 }
+  \cup { Case([NoUpd EXCEPT !.set = <<[p |-> P("x"), v |-> LApp(Val(":v"), Path("kl"))], [p |-> P("y"), v |-> LApp(Val(":v"), Val(":w"))]>>],
+            Keep, <<>>, V2(ListOf(k), Mk("L", <<Str(<<113>>)>>))) : k \in 0..5 }
+  \cup { Case([NoUpd EXCEPT !.set = <<[p |-> P("lst"), v |-> LApp(Path("lst"), Val(":v"))], [p |-> P("y"), v |-> LApp(Path("lst"), Val(":w"))]>>],
+            Keep @@ [lst |-> ListOf(k)], <<>>, V2(Mk("L", <<Str(<<112>>)>>), Mk("L", <<Str(<<113>>)>>))) : k \in {3, 5} }
+\* every clause through name placeholders, top-level and nested
+AliasCases ==
+  LET it == Keep @@ [a |-> Num(1), s |-> SSV, m |-> MV]
+      NM == [x \in {"#a", "#m", "#x"} |-> IF x = "#a" THEN "a" ELSE IF x = "#m" THEN "m" ELSE "x"]
+      Only(S) == [x \in S |-> NM[x]]
+  IN { Case(RemU(<<<<A_("#a")>>>>), it, Only({"#a"}), <<>>),
+       Case(RemU(<<<<A_("#a")>>, P("ks")>>), it, Only({"#a"}), <<>>),
+       Case(RemU(<<<<A_("#m"), A_("#x")>>>>), it, Only({"#m", "#x"}), <<>>),
+       Case(RemU(<<<<N_("m"), A_("#x")>>>>), it, Only({"#x"}), <<>>),
+       Case(AddU(<<A_("#a")>>, Val(":v")), it, Only({"#a"}), V1(Num(2))),
+       Case(AddU(<<A_("#a")>>, Val(":v")), Keep, Only({"#a"}), V1(Num(2))),
+       Case(SetU(<<A_("#m"), A_("#x")>>, Val(":v")), it, Only({"#m", "#x"}), V1(Num(2))),
+       Case(SetU(<<A_("#a")>>, [k |-> "plus", l |-> PathOf(<<A_("#a")>>), r |-> Val(":v")]), it, Only({"#a"}), V1(Num(2))),
+       Case([NoUpd EXCEPT !.set = <<[p |-> P("c"), v |-> PathOf(<<A_("#a")>>)]>>, !.remove = <<<<A_("#a")>>>>], it, Only({"#a"}), <<>>) }
+       \cup { Case(DelU(<<A_("#a")>>, Val(":v")), Keep @@ [a |-> SSV], Only({"#a"}), V1(Mk("SS", <<<<99>>>>))) }
 \* right-hand sides read the PRE-update item
 PreStateCases ==
      { Case([NoUpd EXCEPT !.set = <<[p |-> P("a"), v |-> Path("b")], [p |-> P("b"), v |-> Path("a")]>>], it, <<>>, <<>>) : it \in { x \in WithB : "a" \in DOMAIN x } }
   \cup { Case([NoUpd EXCEPT !.set = <<[p |-> P("kn"), v |-> [k |-> "plus", l |-> Path("kn"), r |-> Val(":v")]], [p |-> P("c"), v |-> Path("kn")]>>], Keep, <<>>, V1(Num(1))) }
   \cup { Case([NoUpd EXCEPT !.set = <<[p |-> P("c"), v |-> Path("ks")]>>, !.remove = <<P("ks")>>], Keep, <<>>, <<>>) }
 
-Cases == SharedOperandCases \cup SetCases \cup NestedCases \cup RemoveCases \cup AddCases \cup DeleteCases \cup MultiCases \cup PreStateCases
+Cases == SharedOperandCases \cup SharedListCases \cup AliasCases \cup SetCases \cup NestedCases \cup RemoveCases \cup AddCases \cup DeleteCases \cup MultiCases \cup PreStateCases
 ASSUME \A c \in Cases : PrintT(ToJson(c))
 ASSUME PrintT(ToJson([kind |-> "count", n |-> Cardinality(Cases)]))
 VARIABLE dummy
